@@ -35,6 +35,14 @@ def check(ctx) -> None:
     r161(ctx)
     r162(ctx)
     r163(ctx)
+    from . import c01
+    before = len(ctx.rules)
+    c01.r19(ctx)
+    r = ctx.rules[before]
+    r.id = 'R16.5'
+    r.title = 'every update collected during IDLE is written (= R1.9)'
+    for i in r.instances:
+        i.rule = 'R16.5'
 
 
 def _waits(cfg):
